@@ -774,6 +774,34 @@ func (g *gen) run() {
 	data, err = stakingABI.Pack("delegateV2", g.valAddr(), fx(3).Amount.BigInt())
 	must(err)
 	g.eth(g.ethUser(), "staking.delegateV2(low-gas)", "", st, nil, 60_000, data)
+	// the rest of the staking precompile, by one delegator: views whose RETURN DATA is observed (validatorList sorts the
+	// bonded validators by missed blocks with an unstable sort and a comparator that leaves ties — all counters are equal
+	// here, so the order is whatever sort.Slice makes of the store order), share approval / transfer, reward withdrawal,
+	// undelegation, redelegation
+	du, dv := g.users[0], g.vals[g.rng.Intn(len(g.vals))].Oper.Val().String()
+	dv2 := g.vals[(g.rng.Intn(len(g.vals)-1)+1)%len(g.vals)].Oper.Val().String()
+	stk := func(kind string, gas uint64, method string, args ...interface{}) {
+		d, err := stakingABI.Pack(method, args...)
+		must(err)
+		g.eth(du, "staking."+kind, "", st, nil, gas, d)
+	}
+	stk("delegateV2(own)", 2_000_000, "delegateV2", dv, fx(100).Amount.BigInt())
+	for _, sortBy := range []uint8{1, 0, 1, uint8(2 + g.rng.Intn(3))} {
+		stk(fmt.Sprintf("validatorList(%d)", min(int(sortBy), 2)), 2_000_000, "validatorList", sortBy)
+	}
+	stk("delegation", 2_000_000, "delegation", dv, du.Hex())
+	stk("delegationRewards", 2_000_000, "delegationRewards", dv, du.Hex())
+	stk("slashingInfo", 2_000_000, "slashingInfo", dv)
+	stk("withdraw", 2_000_000, "withdraw", dv)
+	stk("approveShares", 2_000_000, "approveShares", dv, g.users[2].Hex(), fx(int64(1+g.rng.Intn(20))).Amount.BigInt())
+	stk("allowanceShares", 2_000_000, "allowanceShares", dv, du.Hex(), g.users[2].Hex())
+	stk("transferShares", 2_000_000, "transferShares", dv, g.users[4].Hex(), fx(int64(1+g.rng.Intn(10))).Amount.BigInt())
+	stk("transferShares(too-many)", 2_000_000, "transferShares", dv, g.users[4].Hex(), fx(5_000).Amount.BigInt())
+	stk("undelegateV2", 2_000_000, "undelegateV2", dv, fx(int64(1+g.rng.Intn(5))).Amount.BigInt())
+	if dv2 != dv {
+		stk("redelegateV2", 2_000_000, "redelegateV2", dv, dv2, fx(int64(1+g.rng.Intn(5))).Amount.BigInt())
+	}
+	stk("withdraw(low-gas)", uint64(30_000+g.rng.Intn(40_000)), "withdraw", dv)
 	g.ibcTraffic(1 + g.rng.Intn(3))
 	g.endBlock(short, "evm precompiles")
 
